@@ -357,6 +357,8 @@ def rule_stale_copies(ctx, rule='R10.10'):
 
 
 def run(ctx):
+    from . import protocol
+    protocol.rule_leapfrog_live(ctx, 'R10.14')           # LEAPFROG is symmetric
     from . import c09 as _c09
     _c09.rule_keep_unsynchronized(ctx)     # R09.3: a synchronisation that keeps the unsynchronised state leaves the integrator unsynchronised (reversibility through output points)
     from . import edges
